@@ -332,9 +332,10 @@ Lemma park_table q e :
   (edge_contains e q = false -> c1 q e = sp1 q e) /\ (c1 q e = true -> qmem q (edge_neighbors e) = true).
 Proof.
   intros Hq He. pose proof park_table_b as H. rewrite forallb_forall in H. specialize (H q Hq).
-  rewrite forallb_forall in H. specialize (H e He). rewrite andb_true_iff in H. destruct H as [H1 H2]. split.
-  - intros Hc. rewrite Hc in H1. cbn [orb] in H1. now apply eqb_prop in H1.
-  - intros Hc. rewrite Hc in H2. exact H2.
+  rewrite forallb_forall in H. specialize (H e He).
+  set (a := c1 q e) in *. set (b := sp1 q e) in *. set (c := qmem q (edge_neighbors e)) in *.
+  set (d := edge_contains e q) in *. clearbody a b c d.
+  destruct a, b, c, d; cbn in H; try discriminate; split; intros; congruence.
 Qed.
 
 Lemma included_same q es :
@@ -419,7 +420,9 @@ Proof.
   unfold partitions, nat_range in Hpart. apply parts_spec in Hpart. destruct Hpart as [P F].
   split.
   - rewrite <- concat_map.
-    rewrite <- (map_nth_seq edges ("", "")) at 2. now apply Permutation_map.
+    apply Permutation_trans with (map (fun i => nth i edges ("", "")) (seq 0 (List.length edges))).
+    + now apply Permutation_map.
+    + rewrite map_nth_seq. apply Permutation_refl.
   - intros step Hstep. apply in_map_iff in Hstep. destruct Hstep as [sub [<- Hsub]].
     rewrite forallb_forall in Hall. split; [now apply Hall|].
     rewrite map_length. rewrite Forall_forall in F. now apply F.
@@ -446,7 +449,7 @@ Proof.
   - intros e f [<-|He] [<-|Hf] E.
     + reflexivity.
     + rewrite (K f Hf) in E. discriminate.
-    + rewrite edge_eqb_sym in E by (apply Hin; [now left | now right]). rewrite (K e He) in E. discriminate.
+    + rewrite (edge_eqb_sym x e (Hin x (or_introl eq_refl)) (Hin e (or_intror He))) in E. rewrite (K e He) in E. discriminate.
     + now apply U.
 Qed.
 
@@ -459,12 +462,19 @@ Proof.
   - apply IH. split; [exact Nt|]. intros e f He Hf. apply U; now right.
 Qed.
 
+Lemma NoDup_app_both {A} (l l' : list A) : NoDup (l ++ l') -> NoDup l /\ NoDup l'.
+Proof.
+  induction l as [|x t IH]; cbn [app]; intros N; [split; [constructor | exact N]|].
+  inversion N as [|? ? Hx Nt]; subst. destruct (IH Nt) as [N1 N2]. split; [|exact N2].
+  constructor; [|exact N1]. intros Hc. apply Hx. apply in_or_app. now left.
+Qed.
+
 Lemma NoDup_concat_member {A} (s : list (list A)) step : NoDup (List.concat s) -> In step s -> NoDup step.
 Proof.
   induction s as [|b t IH]; intros N H; [contradiction|].
   cbn [List.concat] in N. destruct H as [<-|H].
-  - eapply NoDup_app_remove_r; exact N.
-  - apply IH; [eapply NoDup_app_remove_l; exact N | exact H].
+  - exact (proj1 (NoDup_app_both _ _ N)).
+  - apply IH; [exact (proj2 (NoDup_app_both _ _ N)) | exact H].
 Qed.
 
 Lemma in_concat_member {A} (s : list (list A)) step x : In step s -> In x step -> In x (List.concat s).
